@@ -137,7 +137,35 @@ def run_c09(chk):
     base = project_stream.run_projects(chk, asts, want_oracles=())
     dis = [{"stream": "project", "text": r["text"], "ast": r["ast"], "diffs": r["diffs"][:6]} for r in base if r["diffs"] and not r["skipped"]]
     plus = [add_lowest(p, chk.rng) for p in asts]
-    outs = run_texts(chk, [render.render(q) for q in plus])
+    # the extended projects go through the model as well (tie), and the pair through the two-run theorem
+    plusres = project_stream.run_projects(chk, plus, want_oracles=())
+    dis += [{"stream": "project-plus", "text": r["text"], "ast": r["ast"], "diffs": r["diffs"][:6]} for r in plusres if r["diffs"] and not r["skipped"]]
+    outs = [r["obs"] or {"error": "NoAnswer"} for r in plusres]
+    from .. import modelio
+    from ..core import run_driver
+    reqs, owners = [], []
+    for i, (p, q) in enumerate(zip(asts, plus)):
+        if p.get("scenarios"):
+            continue
+        try:
+            reqs.append("J " + json.dumps({"op": "intruder", "base": modelio.build_request(p, None), "plus": modelio.build_request(q, None)}))
+            owners.append(i)
+        except modelio.FloatBoundary:
+            pass
+    acc = chk.cov.setdefault("theorem_instances", {})
+    for i, mo in zip(owners, run_driver(reqs) if reqs else []):
+        if not mo.startswith("J "):
+            dis.append({"stream": "intruder", "ast": asts[i], "diffs": [f"model answered {mo[:100]}"]})
+            continue
+        a = json.loads(mo[2:])
+        acc["intruder_pairs"] = acc.get("intruder_pairs", 0) + 1
+        acc["intruder_is_ext"] = acc.get("intruder_is_ext", 0) + (1 if a["is_ext"] else 0)
+        acc["intruder_theorem_applies"] = acc.get("intruder_theorem_applies", 0) + (1 if a["applies"] else 0)
+        acc["intruder_added_scheduled"] = acc.get("intruder_added_scheduled", 0) + (1 if a["applies"] and a["added_scheduled"] else 0)
+        if a["applies"] and not a["agree"]:
+            acc["intruder_fail"] = acc.get("intruder_fail", 0) + 1
+            dis.append({"stream": "intruder", "ast": asts[i], "with_added": render.render(plus[i]),
+                        "diffs": ["model: the proved conclusion of C09.lowest_priority_intruder_harmless_checked evaluates to false"]})
     found = []
     nontriv = 0
     for p, q, r, o2 in zip(asts, plus, base, outs):
@@ -160,8 +188,9 @@ def run_c09(chk):
     chk.cov["distinct_nontrivial"] = nontriv
     chk.cov["rule"] = ("forward projects scheduled by the real code with and without an added top-level task of priority 1 (strictly lowest) on a "
                        "random resource, optionally depending on an existing task or pinned to a start date, nothing depending on it; every other task's flag/start/end must "
-                       "be identical when everything fits; base projects also compared with the Lean model; non-trivial = pairs in which the added "
-                       "task was scheduled")
+                       "be identical when everything fits; base AND extended projects also compared with the Lean model; every pair is handed to the "
+                       "driver, which checks the hypotheses of the two-run theorem (extended environment = ext e zd, intrCheck, treeCheck, wfCheck) and "
+                       "evaluates its conclusion on the model's own two runs; non-trivial = pairs in which the added task was scheduled")
     return conclude(chk, dis, lambda: found)
 
 
